@@ -173,7 +173,7 @@ pub fn structural_oracle(case: &Case, text: &str) -> Result<Vec<PromFamily>, Fai
     Ok(fams)
 }
 
-fn case_render(bytes: &[u8], _s: &[u8], ctx: &mut Ctx) -> Result<(), Fail> {
+pub fn case_render(bytes: &[u8], _s: &[u8], ctx: &mut Ctx) -> Result<(), Fail> {
     let mut src = Source::new(bytes);
     let case = decode(&mut src);
     ctx.case(&case);
